@@ -5,6 +5,7 @@ pub mod c02;
 pub mod c03;
 pub mod c04;
 pub mod c06;
+pub mod c07;
 
 pub fn dispatch(cfg: &Cfg) -> Option<Outcome> {
     Some(match cfg.prop.as_str() {
@@ -13,6 +14,7 @@ pub fn dispatch(cfg: &Cfg) -> Option<Outcome> {
         "C03" => c03::run(cfg),
         "C04" => c04::run(cfg),
         "C06" => c06::run(cfg),
+        "C07" => c07::run(cfg),
         _ => return None,
     })
 }
